@@ -94,6 +94,24 @@ CLAIMED.update({
         ref="DESIGN.md C19, notes/C19.md"),
 })
 
+CLAIMED.update({
+    "C07": dict(
+        text="Gallina transcription, branch for branch, of the operand matcher (both ISAs, all operand classes, wildcards, the {'*':'*'} composition wildcard) and of get_instruction with the suffix fall-backs, plus an independent specification (kind / admits) written from the property text. Proved for every table: a returned entry has the right name (up to case / documented fall-back), the right operand count and passes the matcher on every operand; it is the FIRST such entry; if any entry matches one is returned; an instruction instantiating an entry's own pattern is never unknown; count mismatches never match. check = admits is proved on the well-formed vocabulary outside two lenient families and refuted with witnesses inside them (known findings). Tied to the code by differential lookups on synthetic models, on every shipped entry (own-pattern + near-miss instruction) and on real assembly lines.",
+        note="Trusted: Coq kernel; serialisation of operands/patterns (harness); the specification MatchSpec.v. Partial: check_iff_admits excludes the two lenient families (x86 gpr pattern vs non-vector registers, AArch64 shapeless register vs shaped pattern).",
+        technique="Coq list-induction proofs over a transcribed matcher + specification equivalence + differential lookups",
+        ref="DESIGN.md C07, notes/C07.md"),
+    "C08": dict(
+        text="Gallina model of assign_tp_lt (direct hit, memory composition, unknown fall-back) generic in the numeric instance, taking the lookup results as inputs. Proved: composed port_uops = register form ++ load row ++ store row; pressure = avg(reg) + m_ld*avg(load) + m_st*avg(store), and equals the uniform split of the composed micro-op list without multipliers (link to C01); latency = register form + load latency of the register type, latency_wo_load = register form; throughput = max of register-form throughput and busiest data port; never flagged unknown when the register form has data; with neither form: flags, zero pressure/latency/throughput; kernel costing is a map, so an unknown line changes no other line; row-choice rules. Bit-exact correspondence (binary64) with the real assign_tp_lt on synthetic models and a curated real vocabulary on every shipped model; exact-fraction oracle from the property text.",
+        note="Trusted: Coq kernel; the matcher (C07) and role assignment are inputs obtained from the implementation; shared-state independence is C18's theorem, tested dynamically here.",
+        technique="Coq proofs about a costing model generic in NumOps + bit-exact differential correspondence",
+        ref="DESIGN.md C08, notes/C08.md"),
+    "C18": dict(
+        text="Coq model of the process-wide store the code shares by reference (model tables and entries in the runtime cache, default-argument lists, parser singletons) threaded through analyse : store -> request -> report * store, with the shipped in-place extension and the repaired copy as a parameter. Proved for all stores, requests and histories: with the copy, analyse leaves the store unchanged, reports are independent of any history and equal to a fresh process's, repeated analysis is identical, and a report is a map of a per-line function; the in-place variant is refuted with the rmw-then-load witness (the defect fixed in /repo). Real call histories in one process (random order, repetitions, mixed ISAs/models/options) are compared with fresh-process runs, and a deep structural snapshot of every shared object is compared before/after every call; recorded sharing traces must be accepted by the model.",
+        note="Trusted: Coq kernel; only the listed sharing sites are modelled, Python aliasing elsewhere is covered by the snapshot comparison.",
+        technique="Coq frame/history-independence proofs over an explicit store model + snapshot and fresh-process differential testing",
+        ref="DESIGN.md C18, notes/C18.md"),
+})
+
 REASON_PENDING = "check under construction in this session (see DESIGN.md); not yet claimed"
 
 
